@@ -408,6 +408,25 @@ def broad_base(g):
             "glo": 0, "ghi": 0, "alt": False, "content": content}
 
 
+def kind_base(g):
+    """one clause `?s <constant predicate> ?o` over a content in which every object of that predicate is of ONE kind
+    (all float64, all int64, all text, all nodes): the ?o column can then be judged by ORDER BY / HAVING, and it holds
+    the whole near-miss group of that kind (floats agreeing in 6 decimals, int64 beyond 2^53)."""
+    pc = g.rng.choice([4, 4, 4, 1])
+    mine = [i + 1 for i, t in enumerate(bqlu.TRIPLES) if t[1] == pc]
+    kinds = sorted({bqlu.TRIPLES[i - 1][2]["k"] for i in mine})
+    k = g.rng.choice(kinds)
+    same = [i for i in mine if bqlu.TRIPLES[i - 1][2]["k"] == k]
+    others = [i + 1 for i, t in enumerate(bqlu.TRIPLES) if t[1] != pc]
+    content = sorted(set(same) | set(g.rng.sample(others, g.rng.randint(3, 8))))
+    if len(same) > 4 and g.rng.random() < 0.3:
+        content = sorted(set(content) - {g.rng.choice(same)})
+    s_ = bqlgen.S(b="?s", id="?sid" if g.rng.random() < 0.3 else "")
+    cls = [bqlgen.clause(s_, bqlgen.P(c=pc), bqlgen.O(b="?o"))]
+    return {"clauses": cls, "names": bqlgen.pattern_names(cls), "graphs": g.split(content, g.rng.choice([1, 1, 2])),
+            "glo": 0, "ghi": 0, "alt": False, "content": content}
+
+
 def alias_join(g):
     """2-3 clauses that are joined through a value EXTRACTED from a component (AT / anchor binding: the instant,
     ID: the id string, TYPE: the type string) rather than through a component itself; the subject variable is shared,
@@ -533,8 +552,11 @@ def check_group(v, tier, d):
     plans = []
     for _ in range(n):
         base = clean_base(g, max_clauses=2, p_alias=0.1)
-        if g.rng.random() < 0.3:
+        x = g.rng.random()
+        if x < 0.3:
             base = broad_base(g)
+        elif x < 0.4:
+            base = kind_base(g)
         names = base["names"]
         if len(names) < 2:
             continue
@@ -611,8 +633,11 @@ def check_order(v, tier, d):
     plans = []
     for _ in range(n):
         base = clean_base(g, max_clauses=2, p_alias=0.2)
-        if g.rng.random() < 0.4:
+        x = g.rng.random()
+        if x < 0.35:
             base = broad_base(g)
+        elif x < 0.6:
+            base = kind_base(g)
         names = base["names"]
         sel = list(names)
         group = None
@@ -761,8 +786,11 @@ def check_having(v, tier, d):
     bases = []
     for _ in range(n):
         base = clean_base(g, max_clauses=2, p_alias=0.3)
-        if g.rng.random() < 0.25:
+        x = g.rng.random()
+        if x < 0.2:
             base = broad_base(g)
+        elif x < 0.4:
+            base = kind_base(g)
         elif g.rng.random() < 0.5:
             # broad one-clause patterns over a large content: many rows of several kinds to filter
             content = g.content(12, 22)
